@@ -313,6 +313,7 @@ struct rsink {
     int id;
     bool accept;
     unsigned reject_count;
+    struct upipe *release_on_input;     /* handle given by the driver: released from inside the next input */
     int request_mode;
     struct urequest *reqs[RSINK_MAX_REQ];
     int nreqs;
@@ -342,6 +343,8 @@ static struct upipe *rsink_alloc(struct upipe_mgr *mgr, struct uprobe *uprobe, u
     rsink_init_urefcount(upipe);
     s->id = next_sink_id++;
     s->accept = true;
+    s->reject_count = 0;
+    s->release_on_input = NULL;
     s->request_mode = 0;
     s->nreqs = 0;
     upipe_throw_ready(upipe);
@@ -436,6 +439,14 @@ static void rsink_input(struct upipe *upipe, struct uref *uref, struct upump **u
     /* non-termination is decided in logical steps, not by the clock */
     if (lab_sink_burst_limit && ++lab_sink_burst > lab_sink_burst_limit)
         lab_nonterm("sink received more buffers than octets were ever sent");
+    if (s->release_on_input) {
+        /* an output (or a probe) may release the pipe that is feeding it: the
+         * pipe then loses its last reference inside its own input function */
+        struct upipe *victim = s->release_on_input;
+        s->release_on_input = NULL;
+        lab_ev(EV_DRIVER, 5 /* D_RELEASE */, -1, 0, 0, NULL, "released from its output");
+        upipe_release(victim);
+    }
 }
 
 static void rsink_free(struct upipe *upipe)
@@ -464,6 +475,8 @@ struct upipe *lab_sink_new(const char *name, int *sink_id_p)
 }
 
 void lab_sink_set_accept(struct upipe *sink, bool accept) { rsink_from_upipe(sink)->accept = accept; }
+void lab_sink_arm_release(struct upipe *sink, struct upipe *victim) { rsink_from_upipe(sink)->release_on_input = victim; }
+bool lab_sink_armed(struct upipe *sink) { return rsink_from_upipe(sink)->release_on_input != NULL; }
 void lab_sink_set_request_mode(struct upipe *sink, int mode) { rsink_from_upipe(sink)->request_mode = mode; }
 int lab_sink_id(struct upipe *sink) { return rsink_from_upipe(sink)->id; }
 int lab_sink_nb_requests(struct upipe *sink) { return rsink_from_upipe(sink)->nreqs; }
